@@ -557,6 +557,12 @@ package main
 //@ invariant[0] wfp(c.plugin) && fresh(children) && !isnilslice(children) && len(children) == idx
 //@ invariant[0] imp(0 <= j0 && j0 < len(kids), kids[j0] != nil && fresh(kids[j0]))
 //@ invariant[0] imp(0 <= j0 && j0 < len(children), children[j0] != nil && fresh(children[j0]))
+//@ # every child of a nullable embedded message knows its parent: marked, with the parent's Go type (as the
+//@ # field's own, import-qualified Go type string spells it, without the star) and the parent's field name
+//@ define ptw = strings.TrimPrefix(c.goType, "*")
+//@ define pen = ptw[strings.LastIndex(ptw, ".")+1:len(ptw)]
+//@ define marked(x) = x.ParentIsOptionalEmbed && x.ParentIsOptionalEmbedFullType == ptw && x.ParentIsOptionalEmbedFieldName == pen
+//@ invariant[0] imp(0 <= j0 && j0 < len(children), marked(children[j0]))
 //@ define p = c.field.FieldDescriptorProto
 //@ define tterr = second(c.GetTerraformType())
 //@ define isMsg = first(c.GetTerraformType()).IsMessage
@@ -589,6 +595,7 @@ package main
 //@ ensures [C02,C19,C11] imp(one && !r0.IsMap && !hasO, same(r0.TerraformType, first(c.GetTerraformType())))
 //@ ensures [C02,C19] imp(one && r0.IsMap && !hasO, r0.Type == first(c.GetTerraformType()).Type && r0.ValueType == first(c.GetTerraformType()).ValueType)
 //@ ensures imp(result1 == nil && 0 <= j0 && j0 < len(result0), result0[j0] != nil && fresh(result0[j0]))
+//@ ensures [C05,C13,C03] imp(!excludedF(c) && result1 == nil && flat && c.GetNullable() && 0 <= j0 && j0 < len(result0), marked(result0[j0]))
 //@ ensures wfp(c.plugin)
 
 // ---- comments (C10): the leading comment of the declaration, flattened to one trimmed line
